@@ -244,6 +244,22 @@ pub(super) fn anchor_split(
     let mut cid_redirects = HashMap::<CId, CId>::new();
     let mut new_columns = Vec::new();
     let mut used_new_names = HashSet::new();
+
+    // names the columns at the split already have: a generated name must not
+    // be one of them, whether that column comes earlier or later
+    let names_at_split: HashSet<String> = cols_at_split
+        .iter()
+        .filter_map(|cid| match ctx.column_names.get(cid) {
+            Some(name) => Some(name.clone()),
+            None => match ctx.column_decls.get(cid) {
+                Some(ColumnDecl::RelationColumn(_, _, RelationColumn::Single(Some(name)))) => {
+                    Some(name.clone())
+                }
+                _ => None,
+            },
+        })
+        .collect();
+
     for old_cid in cols_at_split {
         let new_cid = ctx.cid.gen();
 
@@ -252,7 +268,12 @@ pub(super) fn anchor_split(
         let mut new_name = old_name;
         if let Some(new) = &mut new_name {
             if used_new_names.contains(new) {
-                *new = ctx.col_name.gen();
+                *new = loop {
+                    let fresh = ctx.col_name.gen();
+                    if !used_new_names.contains(&fresh) && !names_at_split.contains(&fresh) {
+                        break fresh;
+                    }
+                };
                 ctx.column_names.insert(*old_cid, new.clone());
             }
 
